@@ -152,8 +152,10 @@ Proof. exact ci_col_perm. Qed.
 Print Assumptions C13_nan_perm_invariant.
 Theorem C13_nan_insert : forall l1 l2, somes (l1 ++ None :: l2) = somes (l1 ++ l2).
 Proof. exact somes_insert_none. Qed.
+Print Assumptions C13_nan_insert.
 Theorem C13_reorder : forall l1 l2, Permutation l1 l2 -> Permutation (somes l1) (somes l2).
 Proof. exact somes_perm. Qed.
+Print Assumptions C13_reorder.
 
 (* equivariant under x -> a x + b, a > 0, applied to replicates and estimate *)
 Theorem C13_affine_equivariant : forall (Phi PhiInv pow15 : Q -> Q),
